@@ -63,7 +63,7 @@ PROPS['C05'] = Prop(
                bounds='STEP FROM ANY STATE: one operation (+1 re-entrant operation) from every quiescent queue state with <= 3 pending events and <= 2 recycled slots (shape determined by these two numbers; keys chosen, payloads symbolic), then a full drain'),
            Run('q_history_k2_byvalue', 'q_history.cpp', {'KK': 2, 'RA': 1, 'PAYLOAD': 1}, covers=11, optional_covers=(11, 12, 0, 2, 9), bounds=_Q_BOUNDS % (2, 1, 'copyable tracked object BY VALUE in the prototype (a moved-from payload is recognisable)')),
            Run('q_history_k3_moveonly', 'q_history.cpp', {'KK': 3, 'RA': 0, 'PAYLOAD': 3}, covers=11, optional_covers=(11, 12, 4, 5, 7), bounds=_Q_BOUNDS % (3, 0, 'move-only tracked object by const reference'))],
-    thorough=[Run('q_history_step_from_any_k2', 'q_history.cpp', {'KK': 2, 'RA': 1, 'PAYLOAD': 0, 'INIT_MAX': 4}, covers=11, optional_covers=(11, 12), budget_s=1700, bounds='two steps from every quiescent state with <= 4 pending events and <= 2 free slots, RA=1'),
+    thorough=[Run('q_history_step_from_any_k2', 'q_history.cpp', {'KK': 2, 'RA': 1, 'PAYLOAD': 0, 'INIT_MAX': 2}, covers=11, optional_covers=(11, 12, 10, 9), budget_s=1700, bounds='two steps from every quiescent state with <= 2 pending events and <= 2 free slots, RA=1'),
               Run('q_history_k4_int', 'q_history.cpp', {'KK': 4, 'RA': 1, 'PAYLOAD': 0}, covers=11, optional_covers=(11, 12), budget_s=1700, bounds=_Q_BOUNDS % (4, 1, 'two uint32_t by value')),
               Run('q_history_k4_byvalue', 'q_history.cpp', {'KK': 4, 'RA': 0, 'PAYLOAD': 1}, covers=11, optional_covers=(11, 12, 4, 5), budget_s=1700, bounds=_Q_BOUNDS % (4, 0, 'copyable tracked object by value')),
               Run('q_history_k4_moveonly', 'q_history.cpp', {'KK': 4, 'RA': 1, 'PAYLOAD': 3}, covers=11, optional_covers=(11, 12, 7,), budget_s=1700, bounds=_Q_BOUNDS % (4, 1, 'move-only tracked object by const reference'))],
@@ -290,6 +290,7 @@ _OPS3 = 'enqueue, takeEvent, peekEvent'
 _OPS4 = 'enqueue, process, processOne, processIf, clearEvents'
 _OPS5 = 'enqueue, process, processOne'
 _OPS6 = 'enqueue, process, processOne, takeEvent, clearEvents'
+_OPS7 = 'enqueue, process, processOne, clearEvents'
 _NOREP = '(engine verdict only, no native replay: the per-prototype callback lists inside the heterogeneous classes use std::mutex / std::atomic whatever the Threading policy says, and the native runtime can only schedule the instrumented policy) '
 _QTH = _QT.replace('EventQueue,', 'HeterEventQueue (two prototypes),')
 PROPS['C06'] = Prop(
@@ -314,11 +315,11 @@ PROPS['C11'] = Prop(
            Run('q_observer_t2_s1_p1', 'q_threads.cpp', {'MODE': 11, 'TT': 2, 'SS': 1, 'OPSET': 1}, preempt=1, covers=5, optional_covers=(1, 2, 4), mt=True, bounds=_QT % (2, 1, _OPS1, ' + one observer thread', 1, _SP_HOOKS)),
            Run('hq_observer_t1_s2_p2', 'q_threads.cpp', {'MODE': 11, 'TT': 1, 'SS': 2, 'OPSET': 5, 'HETER': None}, preempt=2, covers=5, optional_covers=(0, 1, 2, 3, 4), mt=True, native=(), bounds=_NOREP + _QTH % (1, 2, _OPS5, ' + one observer thread calling emptyQueue() or waitFor()', 2, _SP_HOOKS))],
     thorough=[Run('hq_observer_t1_s2_auto_p2', 'q_threads.cpp', {'MODE': 11, 'TT': 1, 'SS': 2, 'OPSET': 5, 'HETER': None}, preempt=2, covers=5, optional_covers=(0, 1, 2, 3, 4), mt=True, shared_points=True, native=(), budget_s=1700, bounds=_QTH % (1, 2, _OPS5, ' + one observer thread', 2, _SP_AUTO)),
-              Run('hq_observer_t2_s1_p2', 'q_threads.cpp', {'MODE': 11, 'TT': 2, 'SS': 1, 'OPSET': 4, 'HETER': None}, preempt=2, covers=5, optional_covers=(0, 1, 2, 3, 4), mt=True, native=(), budget_s=1700, bounds=_NOREP + _QTH % (2, 1, _OPS4, ' + one observer thread', 2, _SP_HOOKS)),
-              Run('q_observer_t2_s1_auto_p2', 'q_threads.cpp', {'MODE': 11, 'TT': 2, 'SS': 1, 'OPSET': 1}, preempt=2, covers=5, optional_covers=(1, 2), mt=True, shared_points=True, native=(), budget_s=1700, bounds=_QT % (2, 1, _OPS1, ' + one observer thread', 2, _SP_AUTO)),
-              Run('q_observer_ops1_s2_p2', 'q_threads.cpp', {'MODE': 11, 'TT': 2, 'SS': 2, 'OPSET': 1}, preempt=2, covers=5, optional_covers=(2,), mt=True, budget_s=1700, bounds=_QT % (2, 2, _OPS1, ' + one observer thread', 2, _SP_HOOKS)),
-              Run('q_observer_ops6_s1_p3', 'q_threads.cpp', {'MODE': 11, 'TT': 2, 'SS': 1, 'OPSET': 6}, preempt=3, covers=5, mt=True, budget_s=1700, bounds=_QT % (2, 1, _OPS6, ' + one observer thread', 3, _SP_HOOKS)),
-              Run('q_observer_ops1_s2_auto_p2', 'q_threads.cpp', {'MODE': 11, 'TT': 2, 'SS': 2, 'OPSET': 1}, preempt=2, covers=5, optional_covers=(2,), mt=True, shared_points=True, native=(), budget_s=1700, bounds=_QT % (2, 2, _OPS1, ' + one observer thread', 2, _SP_AUTO))],
+              Run('hq_observer_t2_s1_p2', 'q_threads.cpp', {'MODE': 11, 'TT': 2, 'SS': 1, 'OPSET': 7, 'HETER': None}, preempt=2, covers=5, optional_covers=(0, 1, 2, 3, 4), mt=True, native=(), budget_s=1700, bounds=_NOREP + _QTH % (2, 1, _OPS7, ' + one observer thread', 2, _SP_HOOKS)),
+              Run('q_observer_t2_s1_auto_p1', 'q_threads.cpp', {'MODE': 11, 'TT': 2, 'SS': 1, 'OPSET': 1}, preempt=1, covers=5, optional_covers=(1, 2), mt=True, shared_points=True, native=(), budget_s=1700, bounds=_QT % (2, 1, _OPS1, ' + one observer thread', 1, _SP_AUTO)),
+              Run('q_observer_ops1_s2_p1', 'q_threads.cpp', {'MODE': 11, 'TT': 2, 'SS': 2, 'OPSET': 1}, preempt=1, covers=5, optional_covers=(2,), mt=True, budget_s=1700, bounds=_QT % (2, 2, _OPS1, ' + one observer thread', 1, _SP_HOOKS)),
+              Run('q_observer_ops6_s1_p2', 'q_threads.cpp', {'MODE': 11, 'TT': 2, 'SS': 1, 'OPSET': 6}, preempt=2, covers=5, optional_covers=(2,), mt=True, budget_s=1700, bounds=_QT % (2, 1, _OPS6, ' + one observer thread', 2, _SP_HOOKS)),
+              Run('q_observer_t1_s2_auto_p2', 'q_threads.cpp', {'MODE': 11, 'TT': 1, 'SS': 2, 'OPSET': 1}, preempt=2, covers=5, optional_covers=(0, 1, 2), mt=True, shared_points=True, native=(), budget_s=1700, bounds=_QT % (1, 2, _OPS1, ' + one observer thread', 2, _SP_AUTO))],
     outside='more threads / calls / preemptions than stated; the observation is attributed to the interval [call, return] of emptyQueue/waitFor',
     assumptions=['an event counts as consumed when its listener has returned (one listener), when a takeEvent call that obtained it began, or when a clearEvents call overlapping the observation could have discarded it'])
 _WT = ('EventQueue, instrumented Threading policy (wait/wait_for are the standard predicate loops over the policy condition variable; no spurious wake-ups so a lost wake-up cannot be masked); %s; enqueuer script chosen from '
